@@ -555,15 +555,22 @@ func (fr *frame) symBinop(op token.Token, t types.Type, x, y value) value {
 	}
 	if b.Info()&types.IsFloat != 0 {
 		a, c := in.termOf(x), in.termOf(y)
+		// float32 arithmetic: computed in float64 and rounded (exact for + - * /: 53 >= 2*24+2)
+		rnd := func(r *Term) *Term {
+			if b.Kind() == types.Float32 {
+				return ts.FRound32(r)
+			}
+			return r
+		}
 		switch op {
 		case token.ADD:
-			return fromTerm(ts.FBin(OpFAdd, a, c), t)
+			return fromTerm(rnd(ts.FBin(OpFAdd, a, c)), t)
 		case token.SUB:
-			return fromTerm(ts.FBin(OpFSub, a, c), t)
+			return fromTerm(rnd(ts.FBin(OpFSub, a, c)), t)
 		case token.MUL:
-			return fromTerm(ts.FBin(OpFMul, a, c), t)
+			return fromTerm(rnd(ts.FBin(OpFMul, a, c)), t)
 		case token.QUO:
-			return fromTerm(ts.FBin(OpFDiv, a, c), t)
+			return fromTerm(rnd(ts.FBin(OpFDiv, a, c)), t)
 		case token.LSS:
 			return fromTermBool(ts.FCmp(OpFLt, a, c))
 		case token.LEQ:
@@ -1349,8 +1356,11 @@ func (in *interpreter) convNumeric(dst, src *types.Basic, x value) value {
 		switch {
 		case xt.w == SortFloat && dw > 0:
 			return fromTerm(ts.FToBV(xt, dw, dsigned), dst)
+		case xt.w == SortFloat && dst.Kind() == types.Float32:
+			// a symbolic float32 is kept as the float64 term of its exactly representable value
+			return ts.FRound32(xt)
 		case xt.w == SortFloat:
-			return xt // float64 <-> float32 symbolic: keep (float32 symbolic unsupported)
+			return xt // float32 -> float64 is exact
 		case dw > 0:
 			var r *Term
 			if dw <= sw {
